@@ -342,16 +342,15 @@ where
                             | Context::Paren
                             | Context::Attribute => return Ok(token),
                             Context::Block { .. } if token.value == Token::CloseBlock => {
-                                if let Some(offside) = self.indent_levels.last_mut() {
-                                    // The enclosing block should not emit a block separator for the next
-                                    // expression
-                                    if let Context::Block {
-                                        ref mut emit_semi, ..
-                                    } = offside.context
-                                    {
-                                        *emit_semi = false;
-                                    }
-                                }
+                                // A block closed by unindentation ends an expression of the
+                                // enclosing block (in practice the `else` branch of an `if`: its
+                                // `If` context is gone once `else` has been seen), so the
+                                // enclosing block must still separate that expression from the
+                                // next one:
+                                // ```
+                                // if a then b else c
+                                // d
+                                // ```
                                 return Ok(token);
                             }
                             Context::Rec | Context::Let | Context::Type => {
